@@ -14,6 +14,7 @@
  R6 own objects  : every propagated path a result reads from is a per-request deep copy (shared with C16-R1).
  R5 aggregation  : aggregated requests: ids joined by ' | ', bandwidth summed, N and M concatenated, the absorbed
                    request removed; aggregation requires equal endpoints, transponder, mode and constraints.
+ Rm memo          : every memoisation construct in the functions behind this property is keyed by everything it reads.
 """
 import ast
 
@@ -364,5 +365,10 @@ def r6_own_objects(ctx):
               'the lists returned to planning are not the propagated forward copy and the propagated reverse copy of each request')
 
 
+
+from ..memo import rule_for as _memo_rule
+
+RULES_MEMO = ('Rm.memo', _memo_rule('C19', 'a result would report figures of another request'))
+
 RULES = [('R6.own-objects', r6_own_objects), ('R1.metrics', r1_metrics), ('R2.directions', r2_directions), ('R3.dispatch', r3_dispatch), ('R4.csv', r4_csv),
-         ('R5.aggregation', r5_aggregation)]
+         ('R5.aggregation', r5_aggregation), RULES_MEMO]
